@@ -1,4 +1,5 @@
 import Infretis.Lemmas.RepexC05Keep
+import Mathlib.Algebra.Order.BigOperators.Group.List
 /-!
 # C05 — positivity of the list permanent on non-negative matrices, and the totals of `probMatrix`
 
@@ -18,52 +19,182 @@ open Infretis.Perm
 def NonNegM (N : Mat) : Prop := ∀ r ∈ N, ∀ x ∈ r, (0 : Rat) ≤ x
 
 theorem NonNegM.getD {N : Mat} (h : NonNegM N) (r : Row) (hr : r ∈ N) (c : Nat) : 0 ≤ r.getD c 0 := by
-  sorry
+  rw [List.getD_eq_getElem?_getD]
+  cases hc : r[c]? with
+  | none => simp
+  | some x => simpa using h r hr x (List.mem_of_getElem? hc)
 
 theorem NonNegM.perm {N N' : Mat} (h : NonNegM N) (hp : N'.Perm N) : NonNegM N' :=
   fun r hr x hx => h r (hp.mem_iff.mp hr) x hx
 
+theorem NonNegM.eraseIdx {N : Mat} (h : NonNegM N) (i : Nat) : NonNegM (N.eraseIdx i) :=
+  fun r hr x hx => h r (List.mem_of_mem_eraseIdx hr) x hx
+
 theorem NonNegM.minor {N : Mat} (h : NonNegM N) (i j : Nat) : NonNegM (minor N i j) := by
-  sorry
+  intro r hr x hx
+  simp only [Infretis.Perm.minor, List.mem_map] at hr
+  obtain ⟨r0, hr0, rfl⟩ := hr
+  exact h r0 (List.mem_of_mem_eraseIdx hr0) x (List.mem_of_mem_eraseIdx hx)
 
 /-- the idle block of a matrix whose idle rows are non-negative is non-negative -/
 theorem idle_nonneg (W : Mat) (locks : List Bool)
     (h : ∀ (i : Nat) (r : Row), locks[i]? = some false → W[i]? = some r → ∀ x ∈ r, (0 : Rat) ≤ x) :
     NonNegM (idle W locks) := by
-  sorry
+  intro r hr x hx
+  simp only [idle, List.mem_map] at hr
+  obtain ⟨r0, hr0, rfl⟩ := hr
+  obtain ⟨i, hi, hWi⟩ := mem_keep locks W r0 hr0
+  obtain ⟨j, _, hxj⟩ := mem_keep locks r0 x hx
+  exact h i r0 hi hWi x (List.mem_of_getElem? hxj)
+
+theorem sumPick_nonneg {α : Type} (f : α → List α → Rat) (l : List α)
+    (h : ∀ x xs, (x :: xs).Perm l → 0 ≤ f x xs) : 0 ≤ sumPick f l := by
+  induction l generalizing f with
+  | nil => simp [sumPick]
+  | cons a t ih =>
+    simp only [sumPick]
+    apply add_nonneg (h a t (List.Perm.refl _))
+    apply ih
+    intro y ys hy
+    apply h
+    exact (List.Perm.swap a y ys).trans (List.Perm.cons a hy)
 
 theorem permN_nonneg (m : Nat) (rows : Mat) (h : NonNegM rows) : 0 ≤ permN m rows := by
-  sorry
+  induction m generalizing rows with
+  | zero => simp [permN]
+  | succ m ih =>
+    simp only [permN]
+    apply sumPick_nonneg
+    intro x xs hp
+    have hnn := h.perm hp
+    apply mul_nonneg
+    · exact hnn.getD x List.mem_cons_self m
+    · exact ih xs (fun r hr => hnn r (List.mem_cons_of_mem _ hr))
 
-theorem permC_nonneg (N : Mat) (h : NonNegM N) : 0 ≤ permC N := by
-  sorry
+theorem permC_nonneg (N : Mat) (h : NonNegM N) : 0 ≤ permC N := permN_nonneg _ _ h
+
+theorem entry_nonneg (N : Mat) (h : NonNegM N) (i j : Nat) : 0 ≤ entry N i j := by
+  unfold entry
+  rw [List.getD_eq_getElem?_getD (l := N)]
+  cases hi : N[i]? with
+  | none => simp
+  | some r => simpa using h.getD r (List.mem_of_getElem? hi) j
 
 /-- every term of the Laplace expansion along a row is a lower bound -/
 theorem permC_ge_term (N : Mat) (h : NonNegM N) (i j : Nat) (hi : i < N.length) (hj : j < N.length) :
     entry N i j * permC (minor N i j) ≤ permC N := by
-  sorry
+  conv_rhs => rw [permC_row N i hi]
+  apply List.single_le_sum
+  · intro x hx
+    simp only [List.mem_map] at hx
+    obtain ⟨b, _, rfl⟩ := hx
+    exact mul_nonneg (entry_nonneg N h i b) (permC_nonneg _ (h.minor i b))
+  · exact List.mem_map.mpr ⟨j, List.mem_range.mpr hj, rfl⟩
 
 theorem pSpec_nonneg (N : Mat) (h : NonNegM N) (hP : 0 < permC N) (i j : Nat) : 0 ≤ pSpec N i j := by
-  sorry
+  unfold pSpec
+  exact div_nonneg (mul_nonneg (entry_nonneg N h i j) (permC_nonneg _ (h.minor i j))) hP.le
 
 /-- a positive permanent ratio: the entry is positive and the rest is still matchable -/
 theorem pSpec_pos (N : Mat) (h : NonNegM N) (hP : 0 < permC N) (i j : Nat) (hpos : 0 < pSpec N i j) :
     0 < entry N i j ∧ 0 < permC (minor N i j) := by
-  sorry
+  unfold pSpec at hpos
+  have hm : 0 < entry N i j * permC (minor N i j) := by
+    have := mul_pos hpos hP
+    rwa [div_mul_cancel₀ _ hP.ne'] at this
+  have he := entry_nonneg N h i j
+  have hc := permC_nonneg _ (h.minor i j)
+  rcases mul_pos_iff.mp hm with h1 | h1
+  · exact h1
+  · exact absurd h1.1 (not_lt.mpr he)
 
 /-! ### totals of the embedded probability matrix -/
+
+theorem reinsert_sum (locks : List Bool) (xs : List Rat) : (reinsert 0 locks xs).sum = xs.sum := by
+  induction locks generalizing xs with
+  | nil => rfl
+  | cons l ls ih =>
+    cases l with
+    | true => simp [reinsert, ih]
+    | false =>
+      cases xs with
+      | nil => simpa [reinsert] using ih []
+      | cons x xs => simp [reinsert, ih]
+
+theorem reinsert_rows_sum (z : Row) (hz : z.sum = 0) (locks : List Bool) (rows : Mat) :
+    ((reinsert z locks rows).map List.sum).sum = (rows.map List.sum).sum := by
+  induction locks generalizing rows with
+  | nil => rfl
+  | cons l ls ih =>
+    cases l with
+    | true => simp [reinsert, ih, hz]
+    | false =>
+      cases rows with
+      | nil => simpa [reinsert] using ih []
+      | cons x xs => simp [reinsert, ih]
 
 /-- **Σ of all entries of `probMatrix` = number of idle slots** (each idle row sums to one) -/
 theorem probMatrix_total (W : Mat) (locks : List Bool) (hW : W.length = locks.length)
     (hP : permC (idle W locks) ≠ 0) :
     ((probMatrix W locks).map List.sum).sum = (nIdle locks : Rat) := by
-  sorry
+  have hl := idle_length W locks hW
+  unfold probMatrix embed
+  rw [reinsert_rows_sum _ (by simp), List.map_map]
+  have h1 : (List.sum ∘ reinsert (0 : Rat) locks) = List.sum :=
+    funext (fun xs => reinsert_sum locks xs)
+  rw [h1]
+  unfold specMat
+  rw [List.map_map]
+  have h2 : List.map (List.sum ∘ fun a => (List.range (idle W locks).length).map
+        (fun b => pSpec (idle W locks) a b)) (List.range (idle W locks).length)
+      = List.map (fun _ => (1 : Rat)) (List.range (idle W locks).length) :=
+    List.map_congr_left (fun a ha => spec_row_sum _ a (List.mem_range.mp ha) hP)
+  rw [h2, hl]
+  simp
+
+theorem entry_eq_zero_of_row_none (M : Mat) (i j : Nat) (h : M.length ≤ i) : entry M i j = 0 := by
+  unfold entry
+  rw [List.getD_eq_getElem?_getD (l := M), List.getElem?_eq_none h]
+  rfl
 
 /-- every entry of `probMatrix` is non-negative -/
 theorem probMatrix_nonneg (W : Mat) (locks : List Bool) (hW : W.length = locks.length)
     (hnn : NonNegM (idle W locks)) (hP : 0 < permC (idle W locks)) (i j : Nat) :
     0 ≤ entry (probMatrix W locks) i j := by
-  sorry
+  cases hi : locks[i]? with
+  | none =>
+    have hge : locks.length ≤ i := by
+      rcases Nat.lt_or_ge i locks.length with h' | h'
+      · simp [List.getElem?_eq_getElem h'] at hi
+      · exact h'
+    rw [entry_eq_zero_of_row_none _ _ _ (by rw [probMatrix_length W locks hW]; exact hge)]
+  | some b =>
+    cases b with
+    | true => rw [probMatrix_busy W locks hW i j (Or.inl hi)]
+    | false =>
+      cases hj : locks[j]? with
+      | none =>
+        have hge : locks.length ≤ j := by
+          rcases Nat.lt_or_ge j locks.length with h' | h'
+          · simp [List.getElem?_eq_getElem h'] at hj
+          · exact h'
+        have htl : i < (probMatrix W locks).length := by
+          rw [probMatrix_length W locks hW]
+          exact idle_lt_length locks i hi
+        have : entry (probMatrix W locks) i j = 0 := by
+          unfold entry
+          rw [List.getD_eq_getElem?_getD (l := probMatrix W locks), List.getElem?_eq_getElem htl]
+          simp only [Option.getD_some]
+          rw [List.getD_eq_getElem?_getD, List.getElem?_eq_none]
+          · rfl
+          · rw [probMatrix_row_length W locks hW _ (List.getElem_mem htl)]; exact hge
+        rw [this]
+      | some b =>
+        cases b with
+        | true => rw [probMatrix_busy W locks hW i j (Or.inr hj)]
+        | false =>
+          rw [probMatrix_idle W locks hW i j hi hj]
+          exact pSpec_nonneg _ hnn hP _ _
 
 /-! ### the combinatorial form: perfect matchings -/
 
@@ -77,19 +208,66 @@ def PMatch : Nat → Mat → List Nat → Prop
     | [] => False
     | i :: σ' => i < rows.length ∧ (rows.getD i []).getD m 0 ≠ 0 ∧ PMatch m (rows.eraseIdx i) σ'
 
+theorem exists_ne_zero_of_sum_ne_zero (l : List Nat) (f : Nat → Rat) (h : (l.map f).sum ≠ 0) :
+    ∃ i ∈ l, f i ≠ 0 := by
+  induction l with
+  | nil => simp at h
+  | cons a t ih =>
+    simp only [List.map_cons, List.sum_cons] at h
+    by_cases ha : f a = 0
+    · rw [ha, zero_add] at h
+      obtain ⟨i, hi, hfi⟩ := ih h
+      exact ⟨i, List.mem_cons_of_mem _ hi, hfi⟩
+    · exact ⟨a, List.mem_cons_self, ha⟩
+
 /-- a non-zero permanent has a perfect matching (any entries) -/
 theorem pmatch_of_permN_ne_zero (m : Nat) (rows : Mat) (h : permN m rows ≠ 0) :
     ∃ σ, PMatch m rows σ := by
-  sorry
+  induction m generalizing rows with
+  | zero => exact ⟨[], rfl⟩
+  | succ m ih =>
+    rw [permN, sumPick_eq_sum_range _ rows []] at h
+    obtain ⟨i, hi, hne⟩ := exists_ne_zero_of_sum_ne_zero _ _ h
+    have hi' := List.mem_range.mp hi
+    have h1 : (rows.getD i []).getD m 0 ≠ 0 := left_ne_zero_of_mul hne
+    have h2 : permN m (rows.eraseIdx i) ≠ 0 := right_ne_zero_of_mul hne
+    obtain ⟨σ, hσ⟩ := ih _ h2
+    exact ⟨i :: σ, hi', h1, hσ⟩
 
 /-- a perfect matching of a non-negative matrix makes the permanent positive -/
 theorem permN_pos_of_pmatch (m : Nat) (rows : Mat) (hnn : NonNegM rows) (σ : List Nat)
     (h : PMatch m rows σ) : 0 < permN m rows := by
-  sorry
+  induction m generalizing rows σ with
+  | zero => simp [permN]
+  | succ m ih =>
+    cases σ with
+    | nil => exact absurd h (by simp [PMatch])
+    | cons i σ' =>
+      obtain ⟨hi, hne, hrest⟩ := h
+      rw [permN, sumPick_eq_sum_range _ rows []]
+      have hmem : ∀ k, k < rows.length → rows.getD k [] ∈ rows := by
+        intro k hk
+        rw [List.getD_eq_getElem?_getD, List.getElem?_eq_getElem hk]
+        exact List.getElem_mem hk
+      have hterm : 0 < (rows.getD i []).getD m 0 * permN m (rows.eraseIdx i) := by
+        apply mul_pos
+        · exact lt_of_le_of_ne (hnn.getD _ (hmem i hi) m) (Ne.symm hne)
+        · exact ih _ (hnn.eraseIdx i) σ' hrest
+      refine lt_of_lt_of_le hterm ?_
+      apply List.single_le_sum
+      · intro x hx
+        simp only [List.mem_map, List.mem_range] at hx
+        obtain ⟨k, hk, rfl⟩ := hx
+        exact mul_nonneg (hnn.getD _ (hmem k hk) m) (permN_nonneg _ _ (hnn.eraseIdx k))
+      · exact List.mem_map.mpr ⟨i, List.mem_range.mpr hi, rfl⟩
 
 /-- **for non-negative matrices: permanent positive ⟺ a perfect matching exists** -/
 theorem permC_pos_iff_pmatch (N : Mat) (hnn : NonNegM N) :
     0 < permC N ↔ ∃ σ, PMatch N.length N σ := by
-  sorry
+  unfold permC
+  constructor
+  · exact fun h => pmatch_of_permN_ne_zero _ _ (ne_of_gt h)
+  · rintro ⟨σ, h⟩
+    exact permN_pos_of_pmatch _ _ hnn σ h
 
 end Infretis.Perm.C05
